@@ -19,6 +19,7 @@ import (
 	"github.com/anyproto/any-sync/net/peer"
 	"github.com/anyproto/any-sync/net/streampool"
 	"github.com/anyproto/any-sync/util/crypto"
+	"github.com/anyproto/any-sync/util/simhook"
 )
 
 const CName = "common.commonspace.pubsub"
@@ -354,6 +355,7 @@ func (s *service) CloseSpace(spaceId string) {
 
 	// serving side: drop the space trie and every stream's interest in it,
 	// stripping the routing tags so no lingering tag delivers after close
+	simhook.Yield("pubsub.CloseSpace.serving")
 	s.remoteMu.Lock()
 	delete(s.remote, spaceId)
 	for streamId, strm := range s.streams {
@@ -394,6 +396,7 @@ func (s *service) RevalidateMembers(spaceId string, isMember func(account string
 // evictSpaceStreams drops the space interest of every stream matching evict,
 // stripping its routing tags so delivery stops even while the stream stays open.
 func (s *service) evictSpaceStreams(spaceId string, evict func(*streamInterest) bool) {
+	simhook.Yield("pubsub.evictSpaceStreams")
 	s.remoteMu.Lock()
 	defer s.remoteMu.Unlock()
 	si := s.remote[spaceId]
@@ -536,6 +539,7 @@ func (s *service) handleSubscribe(ctx context.Context, peerId string, sub *pubsu
 	// before onStreamClose takes remoteMu), so holding across AddTagsCtx is safe and
 	// makes interest+tag atomic w.r.t. a concurrent close: if the stream was already
 	// removed, AddTagsCtx fails and we roll the interest back, so nothing leaks.
+	simhook.Yield("pubsub.handleSubscribe")
 	s.remoteMu.Lock()
 	si := s.remote[sub.SpaceId]
 	if si == nil {
@@ -594,6 +598,7 @@ func (s *service) handleUnsubscribe(ctx context.Context, peerId string, unsub *p
 	if !ok {
 		return
 	}
+	simhook.Yield("pubsub.handleUnsubscribe")
 	s.remoteMu.Lock()
 	strm := s.streams[streamId]
 	si := s.remote[unsub.SpaceId]
@@ -622,6 +627,7 @@ func (s *service) handleUnsubscribe(ctx context.Context, peerId string, unsub *p
 		for i, pattern := range removed {
 			tags[i] = interestTag(unsub.SpaceId, pattern)
 		}
+		simhook.Yield("pubsub.handleUnsubscribe.tags")
 		if err := s.pool.RemoveTagsCtx(ctx, tags...); err != nil {
 			log.Warn("remove tags failed", zap.Error(err))
 		}
@@ -709,6 +715,7 @@ func (s *service) relayPublish(ctx context.Context, peerId string, p *pubsubprot
 
 // fanout writes the message to every stream whose interest matches the topic.
 func (s *service) fanout(ctx context.Context, p *pubsubproto.Publish) {
+	simhook.Yield("pubsub.fanout")
 	s.remoteMu.Lock()
 	si := s.remote[p.SpaceId]
 	var patterns []string
@@ -865,6 +872,7 @@ func (s *service) onStreamClose(streamId uint32, _ string, _ []string) {
 	if s.deps.Peers != nil {
 		s.triggerResync()
 	}
+	simhook.Yield("pubsub.onStreamClose")
 	s.remoteMu.Lock()
 	defer s.remoteMu.Unlock()
 	strm := s.streams[streamId]
